@@ -8,8 +8,34 @@ THEOREMS = "C13_events, C13_bad_event_inert, C13_lifecycle_ext, C13_lifecycle_in
 CORPUS = ['C13']
 
 
+def regrace(ctx):
+    """Concurrent registrations against the real registration service: the limit of ten and the
+    uniqueness of names under interleavings finer than the sequential model's moves (sampling)."""
+    import os
+    from . import common as C
+    rounds = 300000 if ctx.tier == "thorough" else 30000
+    rep = os.path.join(ctx.work, "regrace.txt")
+    rc, out = C.run([os.path.join(C.BUILD, "unitdrv"), "regrace", "-rounds", str(rounds), "-out", rep], timeout=900)
+    try:
+        lines = open(rep).read().splitlines()
+    except OSError:
+        lines = []
+    summ = next((l for l in lines if l.startswith("summary ")), None)
+    if rc != 0 or not summ:
+        ctx.violation("C13:regrace-crash", "unitdrv regrace did not finish (a crash inside the registration service is itself an observation)",
+                      (out or "")[-2000:], found_input=False, tag="crash")
+        return
+    wrong = int(summ.split("wrong=")[1])
+    ctx.cov["evaluations"] += rounds
+    ctx.cov["correspondence"].append({"driver": "unitdrv regrace (real registration service, 8 concurrent registrations at 8/9 agents)", "model": "model-free rule: <= 10 agents, free places not exceeded, one admission per name", "cases": rounds, "mismatches": wrong})
+    if wrong:
+        ctx.violation("C13:regrace", "concurrent registrations: " + lines[0],
+                      "the real registration service admits more extensions than the limit allows under concurrent registrations\n" + "\n".join(lines) +
+                      f"\n\nre-run: /verif/.build/unitdrv regrace -rounds {rounds}", found_input=True, tag="race")
+
+
 def check(ctx):
-    return S.standard_check(ctx, "C13", PLAN, MONITORS, THEOREMS, corpus_dirs=CORPUS)
+    return S.standard_check(ctx, "C13", PLAN, MONITORS, THEOREMS, corpus_dirs=CORPUS, extra=regrace)
 
 
 def replay(ctx, path):
